@@ -18,7 +18,8 @@ EXPLANATION = (
     "normal forms (P(N>0) may be spelt 1 - poisson.cdf(0, rate)); the per-cell Poisson / binary maps equal their "
     "documented terms with the N_obs/N_fore scale; D4 observed and simulated scores are the same callee with the "
     "same rate argument, differing only by observed <-> simulated counts; public tests pass same-marginal data and "
-    "fill the result slots. NOT decided: numerical equality with the closed forms.")
+    "fill the result slots. NOT decided: numerical equality with the closed forms. "
+    "Also decided (round 5): D3.double no narrowing dtype; shared C03-D1/D2/D5 (the gridded observation: no sentinel reaches an index) and C11-D1/D4 (the rates are read through the fresh scaled view).")
 CLAUSES = {'D1': 'masked-data discipline', 'D2': 'indicator-only dependence', 'D3': 'score identities', 'D4': 'observed/simulated isomorphism'}
 TRUSTED = ['CPython ast', 'numpy.ma: data under a derived mask is unspecified', 'scipy.stats.poisson.cdf(0, r) = exp(-r)']
 BE, BR, PE = 'csep.core.binomial_evaluations.', 'csep.core.brier_evaluations.', 'csep.core.poisson_evaluations.'
